@@ -155,7 +155,7 @@ def removeCol (name : String) (k : Nat) (rows : List (Ob α)) (dico : List (Stri
   (rows.map (fun o => { o with feats := o.feats.eraseIdx k }),
    (dico.filter (fun p => !(p.1 == name))).map (fun p => (p.1, if p.2 > k then p.2 - 1 else p.2)))
 
-/-- `visvalingam(track, eps)` on the `Track`: `eps **= 2`; `output = track.copy()`; `'@aire'` column added and
+/-- `visvalingam(track, eps)` on the `Track`: `eps = eps * eps` (b704eae); `output = track.copy()`; `'@aire'` column added and
 filled; its entry 0 set to NaN (`IndexError` on an empty track that already has the column); the loop; the
 column removed. `uid`, `tid`, `base` are the copy's, i.e. the input's. -/
 def vwTrk (big eps : α) (T : Trk α) : Except String (Trk α) :=
